@@ -20,13 +20,36 @@ const logT0 = int64(1700000000) * 1e9
 // calibrateMsgLabel finds out whether the engine exposes the line as label "msg" (a convention the
 // properties do not fix).
 func calibrateMsgLabel() (bool, error) {
-	mq := &MemQuerier{Recs: []Rec{{TS: logT0 + 1e9, Line: "probe line", Labels: map[string]string{"app": "x"}}}, ErrAfter: -1}
-	res, err := evalQuery(mq, `{app="x"}`, EvalP{Start: logT0, End: logT0 + 10e9, Step: time.Second, Limit: -1})
-	if err != nil || len(res.Streams) != 1 {
-		return false, fmt.Errorf("calibration query failed: %v (%d streams)", err, len(res.Streams))
+	// the probe must not depend on the limit convention C08 is about: the first of "no limit" spelled as
+	// -1, as 0 and as a large number that returns the record decides (C08 itself asserts that all agree)
+	var res Result
+	var err error
+	for _, limit := range []int{-1, 0, 1000} {
+		mq := &MemQuerier{Recs: []Rec{{TS: logT0 + 1e9, Line: "probe line", Labels: map[string]string{"app": "x"}}}, ErrAfter: -1}
+		res, err = evalQuery(mq, `{app="x"}`, EvalP{Start: logT0, End: logT0 + 10e9, Step: time.Second, Limit: limit})
+		if err == nil && len(res.Streams) == 1 {
+			_, has := res.Streams[0].Labels["msg"]
+			return has, nil
+		}
 	}
-	_, has := res.Streams[0].Labels["msg"]
-	return has, nil
+	return false, fmt.Errorf("calibration query failed: %v (%d streams)", err, len(res.Streams))
+}
+
+// probeLimits evaluates the one-record probe under every spelling of "no limit" and under limits that
+// do not truncate; returns a description of the first one that does not return the record.
+func probeLimits() string {
+	for _, limit := range []int{-100, -5, -1, 0, 1, 2, 1000} {
+		mq := &MemQuerier{Recs: []Rec{{TS: logT0 + 1e9, Line: "probe line", Labels: map[string]string{"app": "x"}}}, ErrAfter: -1}
+		res, err := evalQuery(mq, `{app="x"}`, EvalP{Start: logT0, End: logT0 + 10e9, Step: time.Second, Limit: limit})
+		n := 0
+		for _, st := range res.Streams {
+			n += len(st.Entries)
+		}
+		if err != nil || n != 1 {
+			return fmt.Sprintf(`{app="x"} over one matching record with limit %d: %d entries (err=%v), expected 1`, limit, n, err)
+		}
+	}
+	return ""
 }
 
 var allStrOps = []logql.BinOp{logql.OpEq, logql.OpNotEq, logql.OpRe, logql.OpNotRe}
